@@ -264,6 +264,11 @@ func receiveUnaryResponse[T any](conn StreamingClientConn) (*Response[T], error)
 	if err := conn.Receive(new(T)); err == nil {
 		return nil, NewError(CodeUnknown, errors.New("unary stream has multiple messages"))
 	} else if err != nil && !errors.Is(err, io.EOF) {
+		if _, ok := asError(err); ok {
+			// Already coded (the call's context ended, the server reported an
+			// error after all): that code is the call's outcome.
+			return nil, err
+		}
 		return nil, NewError(CodeUnknown, err)
 	}
 	return &Response[T]{
